@@ -174,8 +174,8 @@ def tuned_cases(draw, tier):
 def tuned_long_cells(tier):
     """Tuned thresholds on training series with thousands of scores (600-2600 samples; > 2000 seeded intervals for the two
     binary segmentations), optionally with an annotation `y` of the true changepoints passed to fit (documented as ignored)."""
-    cells = [("CircularBinarySegmentation", {"min_segment_length": 1, "max_interval_length": 4, "growth_factor": 2.0}, 700),
-             ("CircularBinarySegmentation", {"min_segment_length": 2, "max_interval_length": 8, "growth_factor": 1.5}, 900),
+    cells = [("CircularBinarySegmentation", {"min_segment_length": 1, "max_interval_length": 4, "growth_factor": 2.0}, 1700),
+             ("CircularBinarySegmentation", {"min_segment_length": 2, "max_interval_length": 8, "growth_factor": 1.5}, 2100),
              ("SeededBinarySegmentation", {"min_segment_length": 1, "max_interval_length": 20, "growth_factor": 1.5}, 1500),
              ("MovingWindow", {"bandwidth": 20}, 2600), ("MovingWindow", {"bandwidth": 5, "min_detection_interval": 1}, 800)]
     if tier != "quick":
